@@ -342,13 +342,22 @@ def main_check(plugin, tier, replay=None):
             for i, c in enumerate(s.cases):
                 evaluations += 1
                 io = impl_out[i]
-                for f in plugin.features(s.name, c, io):
-                    hist[f] = hist.get(f, 0) + 1
-                if plugin.nontrivial(s.name, c, io):
-                    distinct.add(s.name + ":" + c.key())
+                # output the plug-in cannot even parse is output no correct implementation produces: it is a
+                # monitor failure on that input (searched, shrunk and reported like any other), not a crash of the check
+                try:
+                    for f in plugin.features(s.name, c, io):
+                        hist[f] = hist.get(f, 0) + 1
+                    if plugin.nontrivial(s.name, c, io):
+                        distinct.add(s.name + ":" + c.key())
+                except Exception as ex:
+                    hist["unparsable-output"] = hist.get("unparsable-output", 0) + 1
                 if len(samples) < 3 and rnd == 0:
                     samples.append({"stream": s.name, "input": c.lines[:40], "impl_output": io[:40]})
-                mv = plugin.monitor(s.name, c, io)
+                try:
+                    mv = plugin.monitor(s.name, c, io)
+                except Exception as ex:
+                    mv = ["[unparsable] the implementation's output for this input is outside the protocol the monitor "
+                          "understands (%s: %s)" % (type(ex).__name__, str(ex)[:120])]
                 if mv:
                     mon_fail.append((s, c, io, model_out[i] if model_out else None, mv))
                 if model_out is not None:
@@ -412,10 +421,17 @@ def main_check(plugin, tier, replay=None):
                 return False
             if hasattr(plugin, "valid_case") and not plugin.valid_case(s.name, cc, o[0], None):
                 return False
-            return any(m.startswith(sig0) for m in plugin.monitor(s.name, cc, o[0]))
+            try:
+                ms = plugin.monitor(s.name, cc, o[0])
+            except Exception as ex:
+                ms = ["[unparsable] %s" % type(ex).__name__]
+            return any(m.startswith(sig0) for m in ms)
         small = shrink(s, c, still_fails)
         o, _ = run_driver_robust(s.impl_cmd, [small], 60)
-        mv2 = plugin.monitor(s.name, small, o[0]) or mv
+        try:
+            mv2 = plugin.monitor(s.name, small, o[0]) or mv
+        except Exception:
+            mv2 = mv
         desc = "; ".join(mv2)[:400]
         sig = mv2[0][:60]
         if sig in reported:
